@@ -49,6 +49,28 @@ M("gro-box-triclinic-order", ["C13"], "gaddlemaps/parsers/__init__.py",
 M("gro-comment-strip-all", ["C13"], "gaddlemaps/parsers/__init__.py",
   "            if value[-1] == '\\n':\n                value = value[:-1]",
   "            value = value.strip()")
+# ---- topology / itp ---------------------------------------------------------------
+M("itp-bonds-ignore-pairs", ["C15"], "gaddlemaps/parsers/_top_parsers.py",
+  "    for key in ('constraints', 'bonds', 'pairs'):", "    for key in ('constraints', 'bonds'):")
+M("itp-atom-number-is-position", ["C15"], "gaddlemaps/parsers/_top_parsers.py",
+  "        bonds.append((atoms_number[bond[0]], atoms_number[bond[1]]))",
+  "        bonds.append((bond[0] - 1, bond[1] - 1))")
+M("top-connect-one-way", ["C15"], "gaddlemaps/components/_components_top.py",
+  "        self.bonds.add(hash(atom))\n        atom.bonds.add(hash(self))",
+  "        self.bonds.add(hash(atom))")
+M("top-copy-shares-bonds", ["C15"], "gaddlemaps/components/_components_top.py",
+  "        atom.bonds = self.bonds.copy()", "        atom.bonds = self.bonds")
+M("connected-stops-at-depth", ["C15"], "gaddlemaps/components/__init__.py",
+  "    while stack:\n        current = stack.pop()", "    while stack and len(seen) < 900:\n        current = stack.pop()")
+M("itp-section-overwrite-again", ["C16", "C15"], "gaddlemaps/parsers/_itp_parse.py",
+  "                if sec not in self:\n                    self[sec] = ItpSection(sec, [])",
+  "                self[sec] = ItpSection(sec, [])")
+M("itp-write-drops-pp-in-section", ["C16"], "gaddlemaps/parsers/_itp_parse.py",
+  "        if self._preprocessor:\n            return self._comment", "        if self._preprocessor:\n            return ''")
+M("itp-multi-comment-truncated", ["C16"], "gaddlemaps/parsers/_itp_parse.py",
+  "            return spl[0], ';'.join(spl[1:])", "            return spl[0], spl[1] if spl[1].endswith('\\n') else spl[1] + '\\n'")
+M("itp-header-lost-on-write", ["C16"], "gaddlemaps/parsers/_itp_parse.py",
+  "                for line in section:\n                    fopen.write(line)", "                pass")
 # ---- pbc --------------------------------------------------------------------------
 M("pbc-floor-instead-of-round", ["C19"], "gaddlemaps/components/_residue.py",
   "            vect -= np.round(vect)", "            vect -= np.floor(vect)")
@@ -71,7 +93,8 @@ def run_one(m, quick_runs=None):
         open(p, "w").write(s.replace(old, new, 1))
         res = {}
         for prop in props:
-            env = dict(os.environ, VERIF_REPO=dst, VERIF_SHRINK_S="10", VERIF_WORKERS=os.environ.get("MUT_WORKERS", "4"))
+            env = dict(os.environ, VERIF_REPO=dst, VERIF_SHRINK_S="10", VERIF_WORKERS=os.environ.get("MUT_WORKERS", "4"),
+                       VERIF_REPLAY_DIR=os.path.join(scratch, "replays"))
             cp = subprocess.run([sys.executable, os.path.join(V, "check.py"), prop, "--tier", "quick", "--no-evidence"],
                                 capture_output=True, text=True, env=env, timeout=1800)
             viol = any(l.startswith(f"VIOLATION property={prop} ") for l in cp.stdout.splitlines())
@@ -80,9 +103,6 @@ def run_one(m, quick_runs=None):
         return name, "caught" if caught else "MISSED", res
     finally:
         shutil.rmtree(scratch, ignore_errors=True)
-        # replays written for mutants are not findings on /repo
-        for f in os.listdir(os.path.join(V, "replays")):
-            pass
 
 
 def run_patch(patch, props):
@@ -98,7 +118,7 @@ def run_patch(patch, props):
             return 2
         ok = True
         for prop in props:
-            env = dict(os.environ, VERIF_REPO=dst, VERIF_SHRINK_S="10")
+            env = dict(os.environ, VERIF_REPO=dst, VERIF_SHRINK_S="10", VERIF_REPLAY_DIR=os.path.join(scratch, "replays"))
             cp = subprocess.run([sys.executable, os.path.join(V, "check.py"), prop, "--tier", "quick", "--no-evidence"],
                                 capture_output=True, text=True, env=env, timeout=1800)
             viol = any(l.startswith(f"VIOLATION property={prop} ") for l in cp.stdout.splitlines())
